@@ -683,6 +683,10 @@ class RequestHandler(BaseProtocol, Generic[_Request]):
                     await self._waiter
                 finally:
                     self._waiter = None
+                if self._force_close:
+                    # connection_lost()/force_close() ran while this wake-up was
+                    # pending: the request factory is gone, nothing can be answered.
+                    break
 
             message, payload = self._messages.popleft()
 
